@@ -8,4 +8,11 @@ PROP_META = {
    "Astra bundle/token back-ends are not started (the token path calls os.Exit inside the library)"],
   "trusted": ["Model/Config.v validate is hand-written from proxy/run.go Run and proxy.go buildNodes; its tie is the proxy.Run correspondence (exit status + externally observed version, max version, connections per host, consistency override)"],
  },
+ "C15": {
+  "rule": "operation sequences (bootstrap/add/remove events, plan creation, Next calls on held plans, counter jumps, concurrent stress) run through proxycore.NewRoundRobinLoadBalancer's public API; exhaustive over all well-formed event histories up to the tier's length from every bootstrap subset with a plan created after every event and the previous plan drained after it; random long histories; runs of 30 back-to-back plans; counter boundary values. Non-trivial = every case; distinct = distinct operation sequence.",
+  "assumptions": ["histories are well-formed (no Add of a present host, duplicate-free bootstrap list): what Cluster.mergeHosts emits",
+                  "fewer than 2^64 plans between two observations (the 64-bit counter does not wrap)",
+                  "concurrent use is only exercised (duplicate-free plans, no crash), not proved: the model is sequential"],
+  "trusted": ["Model/LB.v hand-written from proxycore/lb.go; tie = differential run of OnEvent/NewQueryPlan/Next"],
+ },
 }
